@@ -35,6 +35,11 @@ func (fr *frame) baseEnv() *SpecEnv {
 			env.vars[p.Name()] = fr.params[i]
 		}
 	}
+	for i, fv := range fr.fn.FreeVars {
+		if i < len(fr.freeVals) {
+			env.vars[fv.Name()] = fr.freeVals[i]
+		}
+	}
 	for k, v := range fr.lets {
 		env.vars[k] = v
 	}
@@ -205,6 +210,22 @@ func (p *Program) verifyFuncPass(con *Contract, prev *VC) (res *funcResult) {
 	fr := vc.newFrame(fn, 0)
 	fr.top = true
 	fr.con = con
+	if prev != nil {
+		for _, cl := range con.clauses("funcvalue") {
+			target, _ := vc.funcvalueTargetByName(con, cl.Text)
+			why := "no function " + cl.Text
+			if target != nil {
+				why = funcvalueStructure(fn, cl.Name, target)
+			}
+			o := vc.oblige("structure", fmt.Sprintf("%s/structure[%s always holds the closure %s]", con.FuncName, cl.Name, cl.Text), "true", "true", fmt.Sprintf("%s:%d", cl.File, cl.Line))
+			if why == "" {
+				o.Result = &SolverResult{Status: "unsat", Solver: "gvc-ssa-scan", Output: "assigned once, the closure, right after it is made; all other uses are loads or the closure's own capture"}
+			} else {
+				o.Goal = "false"
+				o.Result = &SolverResult{Status: "unknown", Solver: "gvc-ssa-scan", Output: why}
+			}
+		}
+	}
 	mem := newMem("0")
 	vc.brkComp()
 	if prev != nil {
@@ -231,7 +252,7 @@ func (p *Program) verifyFuncPass(con *Contract, prev *VC) (res *funcResult) {
 	p.assumeAxioms(vc, con)
 	fr.lets = map[string]Val{}
 	for _, cl := range con.clauses("let") {
-		v := env.eval(cl.Expr, nil)
+		v := env.letVal(cl.Name, env.eval(cl.Expr, nil))
 		fr.lets[cl.Name] = v
 		env.vars[cl.Name] = v
 	}
